@@ -186,6 +186,10 @@ inductive Late
   `tunnelBridges` (nothing found, success ack written) and the second look-up inside `handleTargetBridge` /
   the insert-if-absent of `startSourceBridge` -/
   | window (mappingID : String)
+  /-- `startSourceBridge` for `mappingID` runs on this node (bridge registered, route naming this node registered)
+  between the dispatcher's look-up of `tunnelBridges` (nothing found) and its look-up of the routing table: the
+  request takes the route branch with no acknowledgement sent yet, `handleLocalBridgeWait` finds the bridge -/
+  | early (mappingID : String)
 deriving DecidableEq, Repr
 
 /-- `handleLocalBridgeWait`: polls `tunnelBridges` (5 s); attaches as target when the bridge is there. -/
@@ -193,13 +197,13 @@ def handleLocalBridgeWait (bridgeAppears : Bool) : Outcome :=
   if bridgeAppears then ⟨.ok, .target, .switch⟩ else ⟨.ok, .none, .pending⟩
 
 /-- `processCrossNodeForward` reached from the poll (the success ack of `handleTunnelOpen` is already out):
-mapping comparison FIRST, then the "bridge is on this node" shortcut, else forward.  `forwardToSourceNode`
-returns the mode-switch error, which `handleTargetBridge` wraps into a plain error. -/
+mapping comparison FIRST, then the "bridge is on this node" shortcut, else forward (no second acknowledgement:
+`ackSent`; `handleTargetBridge` passes the mode switch of `forwardToSourceNode` on as success). -/
 def processCrossNodeForwardLate (w : World) (req : Req) (mappingID node : String) (bridgeAppears : Bool) : Outcome :=
   if mappingID != req.MappingID then ⟨.ok, .none, .err⟩
   else if node == w.nodeID then handleLocalBridgeWait bridgeAppears
   else if w.unreachable.contains node then ⟨.ok, .none, .err⟩
-  else ⟨.ok, .forward node, .err⟩
+  else ⟨.ok, .forward node, .switch⟩
 
 /-- `handleTargetBridge` (success ack already out): the second look-up of `tunnelBridges` — a bridge found
 there is joined only if it belongs to the request's mapping; no bridge: poll the routing table. -/
@@ -207,6 +211,7 @@ def handleTargetBridge (w : World) (req : Req) : Late → Outcome
   | .window mappingID =>
     if mappingID != req.MappingID then ⟨.ok, .none, .err⟩ else ⟨.ok, .target, .switch⟩
   | .none => ⟨.ok, .none, .pending⟩
+  | .early _ => ⟨.ok, .none, .pending⟩   -- not reached: `.early` is consumed by the dispatcher's route branch
   | .noRouting => ⟨.ok, .none, .err⟩
   | .route mappingID node bridgeAppears => processCrossNodeForwardLate w req mappingID node bridgeAppears
 
@@ -230,8 +235,14 @@ def openTunnelDyn (w : World) (id : ConnIdent) (req : Req) (ts : TunnelState) (l
         | .remote mappingID node =>
           if mappingID != req.MappingID then refuse else processCrossNodeForward w node
         | .none =>
-          if isSourceClient w id clientConn req then handleSourceBridge late
-          else handleTargetBridge w req late
+          match late with
+          | .early mappingID =>
+            -- route branch of handleTunnelOpen (ackSent = false): rejectTunnelOfOtherMapping, or
+            -- handleLocalBridgeWait acknowledges, attaches as target; handleTunnelOpen returns the mode switch
+            if mappingID != req.MappingID then refuse else ⟨.ok, .target, .switch⟩
+          | _ =>
+            if isSourceClient w id clientConn req then handleSourceBridge late
+            else handleTargetBridge w req late
 
 /-- The dispatcher when nothing changes while the request is handled. -/
 def openTunnel (w : World) (id : ConnIdent) (req : Req) (ts : TunnelState) : Outcome :=
